@@ -241,3 +241,64 @@ def bound_inherits(vc):
     vc.check('post/fetch-size', _same(bs.attrs.get('fetch_size'), p_fetch))
     vc.check('post/idempotence', bs.attrs.get('is_idempotent') is idem)
     vc.check('post/prepared-statement', bs.attrs.get('prepared_statement') is ps)
+
+
+@harness('C46', 'ExecutionProfile.__init__', functions=['cassandra.cluster.ExecutionProfile.__init__'], native='contracts.native.c46:replay')
+def profile_init(vc):
+    """the profile a request falls back to holds what its author wrote: ensures every option given to ExecutionProfile(...) - including falsy ones
+    (consistency ANY == 0, timeout None or 0.0) - is stored unchanged, an option left out gets the documented default (LOCAL_ONE, 10.0 s, named tuples, a
+    RetryPolicy, no speculative execution, the default load balancer) and whether consistency / load balancing were explicit is remembered; a non-serial serial
+    consistency is rejected"""
+    from cassandra import ConsistencyLevel
+    from cassandra import cluster as C
+    from cassandra.cluster import ExecutionProfile
+    from cassandra.policies import RetryPolicy, NoSpeculativeExecutionPolicy
+    from cassandra.query import named_tuple_factory
+    default_lbp = _Obj('default-lbp')
+    vc.stub(C.default_lbp_factory, lambda: default_lbp)
+    given = {}
+    kw = {}
+    for name, values in (('load_balancing_policy', [_Obj('lbp')]), ('retry_policy', [_Obj('retry')]), ('row_factory', [_Obj('row_factory')]),
+                         ('speculative_execution_policy', [_Obj('spec')]), ('continuous_paging_options', [_Obj('cp')]),
+                         ('request_timeout', [None, 0.0, 2.5])):
+        pick = vc.choice(name, ['<left out>'] + list(range(len(values))))
+        if pick != '<left out>':
+            kw[name] = given[name] = values[pick]
+    if vc.choice('consistency_given', [False, True]):
+        cl = vc.int('consistency_level')
+        vc.assume(sym.and_(cl >= 0, cl <= 10))
+        kw['consistency_level'] = given['consistency_level'] = cl
+    scl_kind = vc.choice('serial_consistency', ['<left out>', 'SERIAL', 'LOCAL_SERIAL', 'QUORUM'])
+    if scl_kind != '<left out>':
+        kw['serial_consistency_level'] = getattr(ConsistencyLevel, scl_kind)
+    p = vc.obj(ExecutionProfile)
+    k, r = vc.call_catch('cassandra.cluster.ExecutionProfile.__init__', p, **kw)
+    if scl_kind == 'QUORUM':
+        vc.check('serial/non-serial-level-rejected', k == 'exc' and issubclass(exc_class(r), ValueError))
+        return
+    vc.check('post/constructed', k == 'ok')
+    if k != 'ok':
+        return
+    a = p.attrs
+    for name in ('load_balancing_policy', 'retry_policy', 'row_factory', 'speculative_execution_policy', 'continuous_paging_options', 'request_timeout'):
+        if name in given:
+            vc.check('given/%s-stored-unchanged' % name, a.get(name) is given[name] or (not isinstance(given[name], _Obj) and a.get(name) == given[name] and type(a.get(name)) is type(given[name])))
+    if 'consistency_level' in given:
+        vc.check('given/consistency-stored-unchanged-even-when-zero', sym.and_(a.get('consistency_level') == given['consistency_level']) and a.get('_consistency_level_explicit') is True)
+    else:
+        vc.check('default/consistency-LOCAL_ONE', a.get('consistency_level') == ConsistencyLevel.LOCAL_ONE and a.get('_consistency_level_explicit') is False)
+    vc.check('post/serial-consistency', a.get('serial_consistency_level') == (None if scl_kind == '<left out>' else getattr(ConsistencyLevel, scl_kind)))
+    if 'load_balancing_policy' not in given:
+        vc.check('default/load-balancer', a.get('load_balancing_policy') is default_lbp and a.get('_load_balancing_policy_explicit') is False)
+    else:
+        vc.check('given/load-balancer-marked-explicit', a.get('_load_balancing_policy_explicit') is True)
+    if 'retry_policy' not in given:
+        vc.check('default/retry-policy', exc_class(a.get('retry_policy')) is RetryPolicy or type(a.get('retry_policy')) is RetryPolicy)
+    if 'speculative_execution_policy' not in given:
+        vc.check('default/no-speculative-execution', exc_class(a.get('speculative_execution_policy')) is NoSpeculativeExecutionPolicy or type(a.get('speculative_execution_policy')) is NoSpeculativeExecutionPolicy)
+    if 'row_factory' not in given:
+        vc.check('default/row-factory', a.get('row_factory') is named_tuple_factory)
+    if 'request_timeout' not in given:
+        vc.check('default/timeout-10s', a.get('request_timeout') == 10.0)
+    if 'continuous_paging_options' not in given:
+        vc.check('default/no-continuous-paging', a.get('continuous_paging_options') is None)
